@@ -247,3 +247,56 @@ class MapC:
 
     def __repr__(self):
         return "MapC%r" % (sorted(self.d),)
+
+
+class TextV:
+    """a text as lines (StrV without CR/LF) joined by separators from {"\\n", "\\r\\n"}: the input of Session::set_text"""
+    __slots__ = ("lines", "seps")
+
+    def __init__(self, lines, seps):
+        self.lines, self.seps = list(lines), list(seps)
+
+    def __repr__(self):
+        return "TextV(%d lines, seps=%r)" % (len(self.lines), self.seps)
+
+
+class RegexV:
+    __slots__ = ("pattern",)
+
+    def __init__(self, pattern):
+        self.pattern = pattern
+
+
+class DecStrV(StrV):
+    """the text of a rendered number: a fixed number of characters, each a concrete char or a symbolic decimal digit"""
+    __slots__ = ("chars",)
+
+    def __init__(self, chars):
+        # chars: list of ("c", "x") | ("d", z3 Int term in 0..9)
+        self.chars = list(chars)
+        parts = [z3.StringVal(c[1]) if c[0] == "c" else z3.StrFromCode(48 + c[1]) for c in self.chars]
+        self.t = parts[0] if len(parts) == 1 else (z3.Concat(*parts) if parts else "")
+
+    def __repr__(self):
+        return "DecStrV(%d chars)" % len(self.chars)
+
+
+class CharsV:
+    __slots__ = ("chars", "idx")
+
+    def __init__(self, chars, idx=0):
+        self.chars, self.idx = chars, idx
+
+
+class FmtArgV:
+    __slots__ = ("kind", "v")
+
+    def __init__(self, kind, v):
+        self.kind, self.v = kind, v
+
+
+class FmtArgsV:
+    __slots__ = ("template", "args")
+
+    def __init__(self, template, args):
+        self.template, self.args = template, args
